@@ -1005,6 +1005,9 @@ func (p *Parser) parseHashLiteral() ast.Expression {
 		}
 		p.nextToken()
 		value := p.parseExpression(LOWEST)
+		if _, seen := hash.Pairs[key]; !seen {
+			hash.Keys = append(hash.Keys, key)
+		}
 		hash.Pairs[key] = value
 		if !p.peekTokenIs(token.RBRACE) && !p.expectPeek(token.COMMA) {
 			return nil
